@@ -36,23 +36,23 @@ Definition to_array (t : list cell) (f : str) : result aframe :=
                                         | c :: r => scalar_of (assoc f (cvals (last r c)))   (* later cell overwrites *)
                                         end) lags)) rows)).
 
-(* array_data_frame_to_triangle(df, field, period_resolution=res, metadata=m), integer column
-   names, dev lag counted from the period end *)
-Definition from_array (af : aframe) (f : str) (res : option Z) (m : meta) : result (list cell) :=
-  bind (match res with
-        | Some r => Ok r
-        | None => match af_rows af with
-                  | r0 :: r1 :: _ => Ok (month_id (fst r1) - month_id (fst r0))
-                  | _ => Err ValueError
-                  end
-        end) (fun r =>
-  Ok (flat_map (fun row =>
+(* array_data_frame_to_triangle(df, field, period_resolution=r, metadata=m), integer column
+   names, dev lag counted from the period end. *)
+(* period_resolution=None: round(calculate_dev_lag(period[0], period[1])) between two month starts
+   (after the G5 repair) = difference of the month ids *)
+Definition infer_resolution (af : aframe) : result Z :=
+  match af_rows af with
+  | r0 :: r1 :: _ => Ok (month_id (fst r1) - month_id (fst r0))
+  | _ => Err ValueError
+  end.
+Definition from_array (af : aframe) (f : str) (r : Z) (m : meta) : list cell :=
+  flat_map (fun row =>
         let ps := fst row in
         let pe := addm ps r - 1 in
         flat_map (fun hv => match snd hv with
                             | Some x => [mkCell KCum ps pe (addm pe (fst hv)) None m [(f, VNum (Num true x))]]
                             | None => []
-                            end) (combine (af_lags af) (snd row))) (af_rows af))).
+                            end) (combine (af_lags af) (snd row))) (af_rows af).
 
 (* ====================================================================================== *)
 (** * MatrixIndex *)
